@@ -20,7 +20,14 @@ VARIABLES l, sel, first
 JudgeProbe(e) ==
     IF e.sent = ProbeExpected(e.set, e.code) THEN {}
     ELSE {<<"NoLeakAcrossAttach", "probe " \o e.code \o " on " \o e.set>>}
+\* the INQUIRY of this attach did not complete with GOOD (fault = the status the target gave): the attach fails
+\* with an error and selects nothing - the device keeps the set it had (a new device object: the primary set)
+JudgeFailed(e) ==
+    (IF e.exc = "" THEN {<<"FailedAttachSelectsNothing", "attach returned although its INQUIRY failed">>} ELSE {})
+    \cup (IF e.set # (IF e.dev \in DOMAIN sel THEN sel[e.dev] ELSE "spc")
+          THEN {<<"FailedAttachSelectsNothing", IF e.dev \in DOMAIN sel THEN sel[e.dev] ELSE "spc">>} ELSE {})
 Judge(e) ==
+  IF e.fault # 0 THEN JudgeFailed(e) ELSE
     (IF Len(e.cdbs) # 1 THEN {<<"OneInquiryPerAttach", ToString(Len(e.cdbs))>>}
      ELSE IF ~IsStdInquiry(e.cdbs[1]) THEN {<<"OneInquiryPerAttach", "not a standard INQUIRY">>} ELSE {})
     \cup (IF Named(e.type) # "" /\ e.set # Named(e.type) THEN {<<"TypeSelectsSet", Named(e.type)>>} ELSE {})
